@@ -381,9 +381,18 @@ impl InternerGuard<'_> {
         py_lower: Bound<&Version>,
         py_upper: Bound<&Version>,
     ) -> NodeId {
-        if matches!(i, NodeId::TRUE | NodeId::FALSE)
-            || matches!((py_lower, py_upper), (Bound::Unbounded, Bound::Unbounded))
-        {
+        if matches!((py_lower, py_upper), (Bound::Unbounded, Bound::Unbounded)) {
+            return i;
+        }
+
+        let py_range = Ranges::from_range_bounds((py_lower.cloned(), py_upper.cloned()));
+        if py_range.is_empty() {
+            // Oops, the bounds imply there is nothing that can match,
+            // so we always evaluate to false.
+            return NodeId::FALSE;
+        }
+
+        if matches!(i, NodeId::TRUE | NodeId::FALSE) {
             return i;
         }
 
@@ -401,12 +410,6 @@ impl InternerGuard<'_> {
             });
             return self.create_node(node.var.clone(), children);
         };
-        let py_range = Ranges::from_range_bounds((py_lower.cloned(), py_upper.cloned()));
-        if py_range.is_empty() {
-            // Oops, the bounds imply there is nothing that can match,
-            // so we always evaluate to false.
-            return NodeId::FALSE;
-        }
         let mut new = SmallVec::new();
         for &(ref range, node) in edges {
             let overlap = range.intersection(&py_range);
